@@ -1,6 +1,6 @@
 SPECIFICATION Spec
 CONSTANTS MaxList = 2
-          Lims <- LimsMC
+          Lims <- LimsQ
 INVARIANTS PrefixOfFiltered NeverOverCap ExactResponse InOrder AddrsSubsequence LocalIdempotent
 PROPERTIES Terminates
 CHECK_DEADLOCK FALSE
